@@ -134,3 +134,27 @@ theorem array_mut_tie (childMut : Tree → KeySrc → Except Traversal Unit × T
 end
 
 end MiniconfVerif.GenTie
+
+namespace MiniconfVerif.GenTie
+open MiniconfVerif MiniconfVerif.Gen MiniconfVerif.Gen.Core
+
+/-- the fields of a tuple: no attributes -/
+def plainFields (elems : List Tree) : List (Attrs × Tree) := elems.map fun t => (({} : Attrs), t)
+
+theorem applyValidator_plain (op : Op) (o : Out) : applyValidator ({} : Attrs) op o = o := by
+  cases op <;> simp [applyValidator] <;> split <;> simp_all
+
+theorem goFld_plain (io : Io) (op : Op) : ∀ (es : List Tree) (i : Nat) (ks : KeySrc) (t : Tree), es[i]? = some t →
+    Tree.walk.goFld io op (plainFields es) i ks = (t.walk io op ks, plainFields (es.set i (t.walk io op ks).tree))
+  | [], i, ks, t, h => by simp at h
+  | e :: r, 0, ks, t, h => by
+    simp only [List.getElem?_cons_zero, Option.some.injEq] at h
+    subst h
+    cases op <;> simp [plainFields, Tree.walk.goFld, Attrs.deny, Attrs.getter, getterLog, applyValidator_plain]
+  | e :: r, i + 1, ks, t, h => by
+    simp only [List.getElem?_cons_succ] at h
+    have := goFld_plain io op r i ks t h
+    simp only [plainFields] at this
+    simp [plainFields, Tree.walk.goFld, this]
+
+end MiniconfVerif.GenTie
